@@ -88,6 +88,7 @@ class PutSpy(object):
     def __init__(self):
         self.events = []
         self.calls = 0
+        self.ever = set()
         cls = repo.hidden_helpers._AdbPacketStore
         self.cls = cls
         self.orig = cls.put
@@ -99,8 +100,13 @@ class PutSpy(object):
                 known = arg1 in store._dict and arg0 in store._dict[arg1]       # the store already has an entry for this pair (its queue may be empty)
             except (AttributeError, TypeError):
                 known = None
+            # ... or had one earlier on this connection: the unchanged store keeps the (drained) entry of a stream until that stream's CLSE is retrieved
+            if known is False and (id(store), arg0, arg1) in spy.ever:
+                known = True
             r = spy.orig(store, arg0, arg1, cmd, data)
             stored = store.find(arg0, arg1) is not None
+            if stored:
+                spy.ever.add((id(store), arg0, arg1))
             spy.events.append((spy.actor(), arg0, arg1, cmd, stored, known))
             return r
         cls.put = put
@@ -117,12 +123,25 @@ class PutSpy(object):
                 pending = 0
             if pending and spy.core is not None and spy.core.connected:
                 spy.wiped_live.append((spy.actor(), pending))
+            spy.ever = set(k for k in spy.ever if k[0] != id(store))
             return spy.orig_clear_all(store)
         cls.clear_all = clear_all
+        self.orig_get = cls.get
+
+        def get(store, arg0, arg1):
+            r = spy.orig_get(store, arg0, arg1)
+            try:
+                if r[0] == repo.constants.CLSE:
+                    spy.ever.discard((id(store), r[1], r[2]))      # the stream's CLSE has been retrieved: its entry ends here (a later stream may re-use the ids)
+            except Exception:  # noqa
+                pass
+            return r
+        cls.get = get
 
     def remove(self):
         self.cls.put = self.orig
         self.cls.clear_all = self.orig_clear_all
+        self.cls.get = self.orig_get
 
 
 def run_schedule(impl, actors_steps, strategy, line=False, dims=None, core_kw=None):
